@@ -30,6 +30,69 @@ func Run(m *mon.M) {
 	m.Stream("pairs", m.N(12000, 400000), func(c *mon.Case) { pairCase(c, maxN) })
 	m.Stream("cells", m.N(3000, 100000), cellPairs)
 	m.Stream("polygons", m.N(2000, 100000), polygonPairs)
+	m.Require("touching.checked", 5000)
+	m.Stream("touching", m.N(20000, 1000000), touchingCase)
+}
+
+// touchingCase: a child triangle (p, s, c) inside a star-shaped parent A that shares the vertex p with A
+// and whose edge p->s runs along A's edge p->q, s being a point of pq nudged into A's interior by a few
+// ulps; c is A's centre. B is a subset of A by construction (checked with the exact orientation), the
+// bounding rectangles of the two loops agree to within rounding.
+func touchingCase(c *mon.Case) {
+	r := c.R
+	ctr := gen.RandCenter(r)
+	n := 3 + r.Intn(6)
+	rmax := gen.LogUniform(r, 1e-4, 1.3)
+	A := gen.StarLoop(r, ctr, n, rmax*(0.5+0.45*r.Float64()), rmax)
+	i := r.Intn(n)
+	p, q := A.Vs[i], A.Vs[(i+1)%n]
+	base := s2.Interpolate(0.05+0.9*r.Float64(), p, q)
+	var sPt s2.Point
+	ok := false
+	for _, f := range []float64{1e-16, 3e-16, 1e-15, 1e-14, 1e-12, 1e-9} {
+		if r.Intn(2) == 0 && f < 1e-12 {
+			continue
+		}
+		sPt = s2.Point{Vector: base.Add(ctr.Sub(base.Vector).Mul(f)).Normalize()}
+		if sPt != p && sPt != q && ref.Orient(gen.V(p), gen.V(q), gen.V(sPt)) > 0 && ref.Orient(gen.V(p), gen.V(sPt), gen.V(ctr)) > 0 {
+			ok = true
+			break
+		}
+	}
+	if !ok {
+		return
+	}
+	B := []s2.Point{p, sPt, ctr}
+	c.Count("touching.checked", 1)
+	c.Distinct(gen.Bits(p, q, sPt)...)
+	probes := append(append([]s2.Point{}, A.Vs...), B...)
+	probes = append(probes, gen.BoundaryProbes(r, A.Vs, 6)...)
+	checkPair(c, r, A.Vs, B, nested, "touching-child", probes)
+	// nesting discovered by PolygonFromLoops, in both loop orders
+	inB := s2.Point{Vector: p.Add(sPt.Vector).Add(ctr.Vector).Normalize()}
+	inAonly := s2.Point{Vector: ctr.Add(A.Vs[(i+2)%n].Vector).Normalize()}
+	mA, mB := ref.NewLoopModel(gen.Vs(A.Vs), origin, refDir), ref.NewLoopModel(gen.Vs(B), origin, refDir)
+	for order := 0; order < 2; order++ {
+		la, lb := s2.LoopFromPoints(append([]s2.Point(nil), A.Vs...)), s2.LoopFromPoints(append([]s2.Point(nil), B...))
+		ls := []*s2.Loop{la, lb}
+		if order == 1 {
+			ls = []*s2.Loop{lb, la}
+		}
+		P := s2.PolygonFromLoops(ls)
+		det := func() any {
+			return map[string]any{"kind": "touching-child", "A": gen.HexAll(A.Vs...), "B": gen.HexAll(B...), "order": order}
+		}
+		if P.NumLoops() != 2 || la.IsHole() || !lb.IsHole() {
+			c.Violation("Polygon/nesting/touching-child-not-a-hole/wrong-answer", fmt.Sprintf("PolygonFromLoops: the child loop inside its parent (shared vertex, edge along the parent's edge) has IsHole=%v, the parent IsHole=%v, %d loops", lb.IsHole(), la.IsHole(), P.NumLoops()), det())
+			continue
+		}
+		if mB.Contains(gen.V(inB)) && P.ContainsPoint(inB) {
+			c.Violation("Polygon/nesting/contains-point-of-hole/wrong-answer", "the polygon contains a point inside its hole", det())
+		}
+		if mA.Contains(gen.V(inAonly)) && !mB.Contains(gen.V(inAonly)) && !P.ContainsPoint(inAonly) {
+			c.Violation("Polygon/nesting/misses-point-of-body/wrong-answer", "the polygon does not contain a point between shell and hole", det())
+		}
+	}
 }
 
 type rel int
